@@ -58,14 +58,31 @@ def run_one(args):
                     p = os.path.join(where, rel)
                     os.makedirs(os.path.dirname(p), exist_ok=True)
                     open(p, "w").close()
-            for suffix in SUFFIXES:
+            for suffix in SUFFIXES + [None]:
                 n += 1
+                sfx = suffix or ""
                 got = sorted((os.path.relpath(str(e.filepath), base), e.dot_path) for e in get_component_files(suffix) if str(e.filepath).startswith(base + os.sep))   # (the library's own components app lies elsewhere)
-                want = sorted([(f"components/{rel}", dotted("components", rel)) for rel in subset if rel.endswith(suffix) and public(rel)] +
-                              [(f"myapp/components/{rel}", dotted("myapp.components", rel)) for rel in subset if rel.endswith(suffix) and public(rel)])
+                want = sorted([(f"components/{rel}", dotted("components", rel)) for rel in subset if rel.endswith(sfx) and public(rel)] +
+                              [(f"myapp/components/{rel}", dotted("myapp.components", rel)) for rel in subset if rel.endswith(sfx) and public(rel)])
                 if got != want and len(fails) < 4:
                     fails.append({"input": {"entries in each components directory": list(subset), "suffix": suffix}, "clause": "exactly the public files, each once, with the import path Python would use",
                                   "expected": want, "observed": got})
+            # two configured component directories, one nested in the other (directly, and below an underscore directory): every file
+            # that is public relative to SOME configured directory, each once
+            from django.test import override_settings
+            for nested in ("pkg", "_priv"):
+                if not any(rel.startswith(nested + "/") for rel in subset):
+                    continue
+                dirs = [os.path.join(base, "components"), os.path.join(base, "components", nested)]
+                with override_settings(COMPONENTS={"autodiscover": False, "dirs": dirs, "app_dirs": []}):
+                    n += 1
+                    got = sorted((os.path.relpath(str(e.filepath), base), e.dot_path) for e in get_component_files(".py") if str(e.filepath).startswith(base + os.sep))
+                    want = sorted({(f"components/{rel}", dotted("components", rel)) for rel in subset
+                                   if rel.endswith(".py") and (public(rel) or (rel.startswith(nested + "/") and public(rel[len(nested) + 1:])))})
+                    if got != want and len(fails) < 4:
+                        fails.append({"input": {"entries": list(subset), "COMPONENTS.dirs": ["components", f"components/{nested}"], "suffix": ".py"},
+                                      "clause": "nested configured directories: exactly the files public relative to a configured directory, each once",
+                                      "expected": want, "observed": got})
         return {"n": n, "fails": fails}
     finally:
         shutil.rmtree(root, ignore_errors=True)
@@ -78,7 +95,7 @@ def run(repo, procs=16):
     ctx = mp.get_context("spawn")
     with ctx.Pool(procs) as pool:
         res = pool.map(run_one, [(repo, subsets[k::procs]) for k in range(procs)])
-    return {"space": f"{len(subsets)} of the {2 ** len(ENTRIES)} subsets (every 53rd, plus the full set), for the suffixes .py and .js of {len(ENTRIES)} entries, placed both in a COMPONENTS.dirs directory and in an app's components directory of a real project tree",
+    return {"space": f"{len(subsets)} of the {2 ** len(ENTRIES)} subsets (every 53rd, plus the full set), for the suffixes .py, .js and None (all files), plus two nested-directory configurations, of {len(ENTRIES)} entries, placed both in a COMPONENTS.dirs directory and in an app's components directory of a real project tree",
             "evaluations": sum(r["n"] for r in res), "failures": [f for r in res for f in r["fails"]][:6], "exhaustive": False}
 
 
